@@ -264,7 +264,8 @@ def run_case(rec, k):
         sa = snapshot(a)
         nd = np.array([2.0, 4.0]) if c["ls"] != "s0" and SHAPE[c["ls"]][-1] == 2 else np.array(2.0)
         fn = {"neg": lambda: -a, "pow2": lambda: a ** 2, "pow2nd": lambda: (a ** np.array(2) if k % 2 else np.power(a, np.array(2))), "pow3": lambda: a ** 3, "pow2q": lambda: a ** (2 * osyris.units("dimensionless")), "pow3a": lambda: a ** A(3.0 if k % 2 else 3),
-              "powdim": lambda: a ** A(2.0, unit="s"), "pow0": lambda: a ** 0, "powm1": lambda: a ** -1, "powm2": lambda: a ** -2,
+              "powdim": lambda: a ** A(2.0, unit="s"), "raddnd": lambda: (nd + a if k % 2 else np.float64(2.0) + a), "rsubnd": lambda: (nd - a if k % 2 else np.float64(2.0) - a),
+              "rltnd": lambda: (nd < a if k % 2 else np.float64(2.0) < a), "pow0": lambda: a ** 0, "powm1": lambda: a ** -1, "powm2": lambda: a ** -2,
               "sqrt": lambda: (a ** 0.5 if k % 2 else np.sqrt(a)), "rmul2": lambda: 2 * a, "rmulf": lambda: 0.5 * a, "rdiv2": lambda: 2 / a, "rdivf": lambda: 0.5 / a,
               "rdivnd": lambda: nd / a, "rmulnd": lambda: nd * a, "invert": lambda: ~a}[op]
         try:
@@ -280,13 +281,22 @@ def run_case(rec, k):
         ndv = [F(2), F(4)] if nd.shape else [F(2)]
         n = len(lvals)
         ndb = [ndv[i % len(ndv)] for i in range(n)]
-        exp = {"neg": [-v for v in lvals], "pow2": [v ** 2 for v in lvals], "pow2nd": [v ** 2 for v in lvals], "pow3": [v ** 3 for v in lvals], "pow2q": [v ** 2 for v in lvals], "pow3a": [v ** 3 for v in lvals], "powdim": None, "pow0": [F(1)] * n,
+        exp = {"neg": [-v for v in lvals], "pow2": [v ** 2 for v in lvals], "pow2nd": [v ** 2 for v in lvals], "pow3": [v ** 3 for v in lvals], "pow2q": [v ** 2 for v in lvals], "pow3a": [v ** 3 for v in lvals], "powdim": None, "raddnd": None, "rsubnd": None, "rltnd": None, "pow0": [F(1)] * n,
                "powm1": [1 / v for v in lvals] if op == "powm1" else None, "powm2": [1 / v ** 2 for v in lvals] if op == "powm2" else None,
                "sqrt": roots if op == "sqrt" else None, "rmul2": [2 * v for v in lvals], "rmulf": [v / 2 for v in lvals],
                "rdiv2": [2 / v for v in lvals] if op == "rdiv2" else None, "rdivf": [F(1, 2) / v for v in lvals] if op == "rdivf" else None,
                "rdivnd": [x / v for x, v in zip(ndb, lvals)] if op == "rdivnd" else None, "rmulnd": [x * v for x, v in zip(ndb, lvals)],
                "invert": [F(int(not bool(v))) for v in lvals]}[op]
-        d = check_result(res, o, exp, SHAPE[c["ls"]], [c["ldt"]], 0.0)
+        if op in ("raddnd", "rsubnd", "rltnd"):
+            fu = cgs(lu)                           # the Array's unit as a pure number (1, or 100 for m/cm)
+            left = ndb if k % 2 else [F(2)] * n
+            if op == "raddnd":
+                exp = [(x + v * fu) / fu for x, v in zip(left, lvals)]
+            elif op == "rsubnd":
+                exp = [(x - v * fu) / fu for x, v in zip(left, lvals)]
+            else:
+                exp = [None if x == v * fu else F(int(x < v * fu)) for x, v in zip(left, lvals)]
+        d = check_result(res, o, exp, SHAPE[c["ls"]], [c["ldt"]], 0.0, "f" if op in ("raddnd", "rsubnd") else None)
         if d is None and o["unit"] == ["fractional"]:
             sq = res * res
             if sparse_of_pint(sq.unit) != SPARSE[lu]:
